@@ -865,6 +865,62 @@ def corr_pop(seed, tier):
     return R
 
 
+# ----------------------------------------------------------------------------------------------------- Hilbert transform
+def corr_hilbert(seed, tier):
+    """utils.hilbert_transform._hilbert_transform_with_padding against XM.padExp / hilbertCutRecentre / hilbertRecentre: numpy's
+    `polyfit` line and scipy's analytic signal are recorded from inside xeofs (oracles); the model must reproduce THE PADDED SERIES
+    handed to `scipy.signal.hilbert` and the returned analytic signal (padding removed, imaginary part re-centred per feature),
+    with and without padding."""
+    import xeofs.utils.hilbert_transform as H
+
+    R = Result("hilbert")
+    rng = np.random.default_rng(18000 + seed)
+    reqs, exps = [], []
+    for i in range({"quick": 8, "thorough": 60, "search": 30}[tier]):
+        n, p = int(rng.integers(4, 30)), int(rng.integers(1, 5))
+        t = np.arange(n)[:, None]
+        y = np.sin(t * rng.uniform(0.1, 1.0, size=(1, p)) + rng.uniform(0, 6, size=(1, p))) * rng.uniform(0.5, 3, size=(1, p)) + rng.normal(size=(n, p)) * 0.2 \
+            + t * rng.normal(size=(1, p)) * 0.05 + rng.normal(size=(1, p)) * 5
+        padding = "exp" if i % 3 else "none"
+        decay = float(rng.choice([0.2, 0.05, 1.0]))
+        rec = {}
+        o_h, o_fit = H.hilbert, np.polynomial.polynomial.polyfit
+
+        def h_spy(a, *args, **kw):
+            out = o_h(a, *args, **kw)
+            rec["in"], rec["out"] = np.array(a), np.array(out)
+            return out
+
+        def fit_spy(x, yy, deg, *args, **kw):
+            out = o_fit(x, yy, deg, *args, **kw)
+            rec["coefs"] = np.array(out)
+            return out
+
+        H.hilbert = h_spy
+        np.polynomial.polynomial.polyfit = fit_spy
+        try:
+            res = H._hilbert_transform_with_padding(y.copy(), padding=padding, decay_factor=decay)
+        finally:
+            H.hilbert = o_h
+            np.polynomial.polynomial.polyfit = o_fit
+        coefs = rec.get("coefs")
+        if coefs is None:  # no padding: the line is not used; any line will do for the (unused) padded output
+            coefs = np.zeros((2, p))
+        R.tally("padding", padding)
+        R.tally("decay", decay)
+        reqs.append({"fn": "hilbert", "cplx": True, "n": n, "p": p, "y": bits(y), "c0": bits(coefs[0]), "c1": bits(coefs[1]), "decay": f2b(decay),
+                     "padding": padding == "exp", "H": cbits(rec["out"])})
+        exps.append((padding, rec["in"], res, (n, p), {"n": n, "p": p, "padding": padding, "decay": decay, "seed": seed}))
+    for (padding, hin, res, (n, p), small), ans in zip(exps, ask(reqs)):
+        if ans.get("status") != "ok":
+            R.cmp("status", False, small, ans, "ok")
+            continue
+        if padding == "exp":
+            R.cmp("padded_series", close(unbits(ans["padded"], (3 * n, p)), hin, 1e-10), small, unbits(ans["padded"]).ravel()[:4].tolist(), hin.ravel()[:4].tolist())
+        R.cmp("analytic_signal", cclose(uncbits(ans["out"], (n, p)), res, 1e-10), small, [str(z) for z in uncbits(ans["out"]).ravel()[:3]], [str(z) for z in res.ravel()[:3]])
+    return R
+
+
 # ----------------------------------------------------------------------------------------------------- Scaler
 def corr_scaler(seed, tier):
     """preprocessing.Scaler.fit/transform/inverse_transform_data on (sample, feature) arrays against XM.scalerTransform /
@@ -1574,6 +1630,7 @@ CORR = {
     "bootstrap": corr_bootstrap,
     "opa": corr_opa,
     "pop": corr_pop,
+    "hilbert": corr_hilbert,
     "scaler": corr_scaler,
     "threshold": corr_threshold,
     "validators": corr_validators,
@@ -1588,7 +1645,7 @@ CORR = {
 
 # which correspondences tie the model parts a property's theorems are stated on
 BY_PROP = {
-    "C01": ["complex", "eof_pipeline", "sign_rule"],
+    "C01": ["complex", "eof_pipeline", "hilbert", "sign_rule"],
     "C02": ["frame"],
     "C03": ["complex", "eof_pipeline", "scaler", "cpcca_core"],
     "C04": ["complex", "eof_pipeline", "cpcca_core", "rotator"],
